@@ -25,9 +25,13 @@ ASSUMPTIONS = [
     "instances) is Rb.mergeTree, compared the same way (op rbm); the lyds_pool of lyd_dup_siblings_to_parent / "
     "lyd_merge is not in the Lean model: the white-box harness checks in-order = sibling order and the red-black "
     "invariants on the real structure after every op",
-    "key types of the generated schemas: int32, uint8, string (type plugins' sort callbacks: numeric / strcmp)",
-    "ops outside the model's fragment (lyd_move_nodes of a multi-node list, dup, merge, validate, implicit, opaque nodes "
-    "through insert_before/after, second key leaf) are judged by the C-side battery only",
+    "key types of the generated schemas: int32, uint8, string (type plugins' sort callbacks: numeric / strcmp); lists with 1, 2 and 3 keys",
+    "lists with several keys: the model key is the tuple of the key-leaf values compared key by key (Key.tup); lyd_new_list2, "
+    "lyd_new_path (container / list-with-all-keys / final-leaf paths), lyd_find_sibling_val by all keys and lyd_change_term of a "
+    "key leaf are modelled and compared (family multikey, schema S4)",
+    "ops outside the model's fragment (lyd_move_nodes of a multi-node list in the forest layer, dup, merge, validate, implicit, "
+    "opaque nodes through insert_before/after, second key leaf) are judged by the C-side battery only; lyds_split and "
+    "lyd_merge DESTRUCT (lyds pool, lyds_insert2) are compared at the red-black shape level (ops s<idx>, rbd)",
 ]
 TRUSTED = ["harness/sib_common.h consistency battery (written against the public structures, ordering oracle independent of libyang)"]
 
@@ -369,7 +373,7 @@ def rb_scripts(cx, schs):
     hmin = ht_min_items()
     scripts = []
     # (a) exhaustive: every insert/remove script of <= L ops over 2 keys, and over 3 keys one op shorter
-    for q in rbs_enumerate(2, cx.n(7, 9)) + rbs_enumerate(3, cx.n(6, 7)):
+    for q in rbs_enumerate(2, cx.n(7, 9)) + rbs_enumerate(3, cx.n(5, 7)):
         scripts.append(("exh", q))
     # (b) exhaustive removal orders: n distinct keys (n <= 7) inserted in some order, then removed in EVERY order
     for n in range(2, 8):
